@@ -17,21 +17,45 @@ theorem translator_complete : Gen.missing = [] := by decide
 
 theorem skeleton_unchanged :
     (Gen.Skel.conds_parseParam,
+     Gen.Skel.stmts_parseParam,
      Gen.Skel.conds_quote,
+     Gen.Skel.stmts_quote,
      Gen.Skel.conds_params_set,
+     Gen.Skel.stmts_params_set,
      Gen.Skel.conds_method_parseQueryParams,
+     Gen.Skel.stmts_method_parseQueryParams,
      Gen.Skel.conds_fieldPath,
+     Gen.Skel.stmts_fieldPath,
      Gen.Skel.conds_streamHTTP_RecvMsg,
+     Gen.Skel.stmts_streamHTTP_RecvMsg,
      Gen.Skel.conds_streamHTTP_decodeRequestArgs,
-     Gen.Skel.conds_streamHTTP_getCodec)
+     Gen.Skel.stmts_streamHTTP_decodeRequestArgs,
+     Gen.Skel.conds_streamHTTP_getCodec,
+     Gen.Skel.stmts_streamHTTP_getCodec,
+     Gen.Skel.conds_Mux_ServeHTTP,
+     Gen.Skel.stmts_Mux_ServeHTTP,
+     Gen.Skel.conds_Mux_match,
+     Gen.Skel.stmts_Mux_match)
   = (Expected.C03.conds_parseParam,
+     Expected.C03.stmts_parseParam,
      Expected.C03.conds_quote,
+     Expected.C03.stmts_quote,
      Expected.C03.conds_params_set,
+     Expected.C03.stmts_params_set,
      Expected.C03.conds_method_parseQueryParams,
+     Expected.C03.stmts_method_parseQueryParams,
      Expected.C03.conds_fieldPath,
+     Expected.C03.stmts_fieldPath,
      Expected.C03.conds_streamHTTP_RecvMsg,
+     Expected.C03.stmts_streamHTTP_RecvMsg,
      Expected.C03.conds_streamHTTP_decodeRequestArgs,
-     Expected.C03.conds_streamHTTP_getCodec) := rfl
+     Expected.C03.stmts_streamHTTP_decodeRequestArgs,
+     Expected.C03.conds_streamHTTP_getCodec,
+     Expected.C03.stmts_streamHTTP_getCodec,
+     Expected.C03.conds_Mux_ServeHTTP,
+     Expected.C03.stmts_Mux_ServeHTTP,
+     Expected.C03.conds_Mux_match,
+     Expected.C03.stmts_Mux_match) := rfl
 
 /-- **exact conversion**: every value of every integer kind, written as proto3 JSON writes it
 in a URL (plain decimal), is converted to exactly that value. -/
